@@ -767,6 +767,8 @@ class PipeWorld(World):
             if op['op'] == 'express':
                 t += (op.get('lifetime') or 4000) * 1000 + (op.get('validator') or {}).get('latency_us', 0) \
                     + 2 * (op.get('await_delay_us') or 0)
+                if op.get('await_delay_us'):
+                    t += 110_000        # the current front-end waits 100 ms from a first await that comes after the deadline
             elif op['op'] == 'rx':
                 t += tail + op.get('gap_us', 0) * (len(op.get('cuts', [])) + 1)
             end = max(end, t)
